@@ -44,6 +44,14 @@ def is_agg(v, adt=None, variant=None):
             and (adt is None or v[1] == adt) and (variant is None or v[2] == variant))
 
 
+def _contains(v, x, depth=0):
+    if v == x:
+        return True
+    if not isinstance(v, tuple) or depth > 10:
+        return False
+    return any(isinstance(y, tuple) and _contains(y, x, depth + 1) for y in v)
+
+
 class St:
     __slots__ = ('store', 'facts', 'events', 'trace', 'nframe', 'neid', 'stack', 'visits', 'pruned',
                  'qinfo', 'frame_fn')
@@ -397,7 +405,7 @@ class Engine:
         if 'cast' in rv:
             v = self.eval_operand(st, frame, rv['cast'])
             k = rv.get('kind', '')
-            if v[0] in ('ref', 'fn') or 'Ptr' in k or 'Unsize' in k or 'Transmute' in k:
+            if v[0] in ('ref', 'fn', 'closure') or 'Ptr' in k or 'Unsize' in k or 'Transmute' in k:
                 return v
             if v[0] == 'const' and isinstance(v[1], int):
                 return v
@@ -469,6 +477,7 @@ class Engine:
             if not d['place']['p']:
                 names.setdefault(d['place']['l'], d['name'])
         args = []
+        guard_params = []
         for i in range(1, fn['arg_count'] + 1):
             if arg_values and i - 1 < len(arg_values) and arg_values[i - 1] is not None:
                 args.append(arg_values[i - 1])
@@ -481,6 +490,10 @@ class Engine:
                 args.append(('ref', (('P', name),)))
             elif ty['k'] == 'adt' and ty['path'] == 'std::pin::Pin' and ty['args'] and ty['args'][0]['k'] == 'ref':
                 args.append(('pin', ('ref', (('P', name),))))
+            elif ty['k'] == 'adt' and ty['path'].startswith('lock_api::') and ty['path'].endswith('MutexGuard'):
+                # a private helper that is handed the already acquired guard: it runs under the caller's lock
+                args.append(('guard', (('P', name),)))
+                guard_params.append((('P', name),))
             else:
                 args.append(('param', name))
         # what every calling context knows about the caller's own (unlinked) node: see rl.entry_contexts
@@ -490,8 +503,13 @@ class Engine:
             for v in dom:
                 if v not in allowed:
                     self._set_fact(st, key, v, False, dom)
+        for m_ in guard_params:
+            st.events.append({'k': 'lock', 'mutex': m_, 'fn': fn['path'], 'frame': 1, 'ln': None, 'by_param': True,
+                              'eid': st.eid(), 'callee': 'lock_api::MutexGuard (parameter)', 'name': 'lock', 'args': (),
+                              'ci': {}})
         out = []
         for st2, rv in self.run_fn(fn, args, st):
+            rv = self._public_shape(fn, st2, rv)
             self.stats['paths'] += 1
             exit_kind = 'panic' if rv is PANIC else 'return'
             if rv is PANIC and st2.pruned == -1:
@@ -501,6 +519,42 @@ class Engine:
                 self.stats['truncated'] += 1
                 break
         return out
+
+    def _public_shape(self, fn, st, rv):
+        """the return value of a function that reports through a private outcome enum, converted the way the crate
+        itself converts it (see rl.outcome_decoders); anything else is returned unchanged"""
+        oc = getattr(self.F, 'outcomes', None)
+        if not oc or rv is PANIC or rv is None or rv[0] != 'agg':
+            return rv
+        if rv[1] in oc['conv'] and oc['conv'][rv[1]] != fn['path']:
+            cf = self.F.fn(oc['conv'][rv[1]])
+            st1 = st.copy()
+            res = [(s2, r2) for s2, r2 in self.run_fn(cf, [rv], st1) if r2 is not PANIC]
+            if res and all(r2 == res[0][1] for _s, r2 in res):
+                # one result on every path of the conversion.  Whatever the outcome carried and the conversion
+                # consumed itself (a waker it wakes) stays visible as a trailing element, so that "is handed on to
+                # the caller" remains decidable
+                c = res[0][1]
+                extra = tuple(x for _n, x in rv[3] if not _contains(c, x) and x[0] not in ('const',))
+                if not extra:
+                    return c
+                if c[0] == 'tuple':
+                    return ('tuple', tuple(c[1]) + extra)
+                return ('tuple', (c,) + extra)
+        sh = oc['shape'].get((rv[1], rv[2]))
+        if sh is None:
+            return rv
+        pv, inner = sh
+        if pv == 'Pending':
+            return ('agg', POLL, 'Pending', ())
+        vals = [x for _, x in rv[3]]
+        payload = UNIT if not vals else (vals[0] if len(vals) == 1 else ('tuple', tuple(vals)))
+        if inner is None:
+            return ('agg', POLL, 'Ready', (('0', UNIT),))
+        adt_, var_ = inner
+        if var_ in ('None',):
+            return ('agg', POLL, 'Ready', (('0', ('agg', adt_, var_, ())),))
+        return ('agg', POLL, 'Ready', (('0', ('agg', adt_, var_, (('0', payload),))),))
 
     def run_fn(self, fn, args, st):
         st.nframe += 1
@@ -675,6 +729,16 @@ class Engine:
         dest = self.eval_place(st, frame, t['dest'])
         if ci is None:
             fv = self.eval_operand(st, frame, t['func'])
+            if fv[0] in ('closure', 'fn'):
+                # a call through a function pointer whose value the path knows (a non-capturing closure or a fn item
+                # coerced to `fn(..)` and handed to a generic helper)
+                for st2, rv in self.call_closure(st, fv, args):
+                    if rv is PANIC:
+                        yield st2, False
+                    else:
+                        self._write_ev(st2, fn, frame, dest, rv, t['ln'])
+                        yield st2, True
+                return
             eid = st.eid()
             st.events.append({'k': 'call', 'callee': '<indirect>', 'name': '<indirect>', 'args': tuple(args),
                               'ret': ('ret', eid), 'eid': eid, 'fn': fn['path'], 'ln': t['ln'],
